@@ -305,6 +305,16 @@ func containsTypeParam(t types.Type) bool {
 }
 
 func (v *FnV) callWithArgs(st *State, call *ast.CallExpr, preArgs []Value) []Value {
+	if st.ghost == nil {
+		return v.callWithArgs0(st, call, preArgs, &callInfo{})
+	}
+	ci := &callInfo{}
+	res := v.callWithArgs0(st, call, preArgs, ci)
+	v.logCall(st, ci, res)
+	return res
+}
+
+func (v *FnV) callWithArgs0(st *State, call *ast.CallExpr, preArgs []Value, ci *callInfo) []Value {
 	info := v.info()
 	fun := unparen(call.Fun)
 	// conversion
@@ -338,11 +348,18 @@ func (v *FnV) callWithArgs(st *State, call *ast.CallExpr, preArgs []Value) []Val
 		if cr, ok := v.closures[fv.S]; ok {
 			return v.inlineLit(st, cr.lit, cr.frame, args)
 		}
+		ci.opaque, ci.fv, ci.args = true, fv.S, args
+		if ix, ok := fun.(*ast.IndexExpr); ok && st.ghost != nil {
+			if _, isSl := v.typeOf(ix.X).Underlying().(*types.Slice); isSl {
+				ci.idx = v.expr(st.fork(), ix.Index).S
+			}
+		}
 		// a contract attached to the NAMED function type of the callee value
 		// (//@ func <TypeName>): every value of that type is assumed to satisfy it
 		if nt, ok := types.Unalias(v.typeOf(fun)).(*types.Named); ok && sig != nil && nt.Obj().Pkg() != nil {
 			if fc, ok := v.e.cs.Funcs[nt.Obj().Pkg().Path()+"."+nt.Obj().Name()]; ok {
 				v.c.trusted["every value of function type "+nt.Obj().Name()+" is assumed to satisfy the type's contract"] = true
+				v.callWriteCheck(st, call, "a value of function type "+nt.Obj().Name(), fc.Pure)
 				v.noFunctional = true
 				res := v.contractCallSig(st, call, fc, nt.Obj().Name(), sig, nil, args)
 				v.noFunctional = false
@@ -354,6 +371,7 @@ func (v *FnV) callWithArgs(st *State, call *ast.CallExpr, preArgs []Value) []Val
 				return res
 			}
 		}
+		v.callWriteCheck(st, call, "an unknown function value", false)
 		v.abstract(call, "call of function value (havoc)")
 		v.escapeClosures(st, args)
 		v.yield(st)
@@ -364,6 +382,7 @@ func (v *FnV) callWithArgs(st *State, call *ast.CallExpr, preArgs []Value) []Val
 	if m, ok := stdModels[full]; ok && m.norecv {
 		// receiver-independent model (locks, wait groups): the receiver is not evaluated
 		args := v.evalArgs(st, call, sig, preArgs)
+		ci.full, ci.args = full, args
 		return m.f(v, st, call, nil, args)
 	}
 	// receiver
@@ -391,22 +410,31 @@ func (v *FnV) callWithArgs(st *State, call *ast.CallExpr, preArgs []Value) []Val
 	// interface method call
 	if recv != nil && isInterface(recv.T) {
 		args := v.evalArgs(st, call, sig, preArgs)
+		ci.full, ci.args, ci.recv = full, args, recv
 		if fc, ok := v.e.cs.Funcs[full]; ok {
+			_, nw := fc.Extra["nowrite"]
+			v.callWriteCheck(st, call, shortName(full), fc.Pure || nw)
 			return v.contractCall(st, call, fc, fn, recv, args)
 		}
 		if m, ok := stdModels[full]; ok {
+			v.callWriteCheck(st, call, shortName(full), m.pure)
 			return m.f(v, st, call, recv, args)
 		}
+		v.callWriteCheck(st, call, shortName(full), false)
 		v.abstract(call, "interface method call "+shortName(full)+" without contract (havoc)")
 		v.escapeClosures(st, args)
 		v.yield(st)
 		return v.havocResults(st, call, fn.Name())
 	}
 	args := v.evalArgs(st, call, sig, preArgs)
+	ci.full, ci.args, ci.recv = full, args, recv
 	if fc, ok := v.e.cs.Funcs[full]; ok && !fc.Inline {
+		_, nw := fc.Extra["nowrite"]
+		v.callWriteCheck(st, call, shortName(full), fc.Pure || nw)
 		return v.contractCall(st, call, fc, fn, recv, args)
 	}
 	if m, ok := stdModels[full]; ok {
+		v.callWriteCheck(st, call, shortName(full), m.pure)
 		v.c.trusted["stdlib model: "+full] = true
 		return m.f(v, st, call, recv, args)
 	}
@@ -417,6 +445,7 @@ func (v *FnV) callWithArgs(st *State, call *ast.CallExpr, preArgs []Value) []Val
 	if decl := v.e.decls[full]; decl != nil && decl.Body != nil && len(v.frames) < maxInlineDepth+2 && !v.inlining[full] && (forceInline || (len(v.frames) < maxInlineDepth && v.inlinable(decl))) {
 		return v.inlineDecl(st, call, full, fn, recv, args)
 	}
+	v.callWriteCheck(st, call, shortName(full), v.e.declPure(full, 0))
 	v.abstract(call, "call to "+shortName(full)+" without contract (havoc)")
 	v.escapeClosures(st, args)
 	v.yield(st)
@@ -712,7 +741,18 @@ func (v *FnV) contractCallSig(st *State, call *ast.CallExpr, fc *FuncContract, n
 		if cl.Label != "" {
 			lbl = cl.Label
 		}
-		v.oblige(s2, fmt.Sprintf("pre:%s:%s", fn.Name(), lbl), call, ord, val.S, "requires "+cl.Text+" of "+shortName(fc.FullName()))
+		skipPre := false
+		for _, sk := range v.fc.Extra["skip"] {
+			if sk == "pre:"+fn.Name() {
+				skipPre = true
+			}
+		}
+		if skipPre {
+			// the caller's contract declares this callee's preconditions out of scope (listed as an assumption)
+			v.c.trusted[v.name+": precondition "+cl.Text+" of "+shortName(fc.FullName())+" is assumed at the call (skip pre:"+fn.Name()+")"] = true
+		} else {
+			v.oblige(s2, fmt.Sprintf("pre:%s:%s", fn.Name(), lbl), call, ord, val.S, "requires "+cl.Text+" of "+shortName(fc.FullName()))
+		}
 		// continue under the precondition
 		if val2, err := v.spec(st, cl.Expr, sc); err == nil && !strings.Contains(val2.S, "(forall") {
 			// (quantified preconditions are not re-assumed: they were just proved from
@@ -722,7 +762,18 @@ func (v *FnV) contractCallSig(st *State, call *ast.CallExpr, fc *FuncContract, n
 	}
 	old := st.fork()
 	if !fc.Pure {
-		v.escapeClosures(st, args)
+		if ne := noescapeParams(fc); len(ne) > 0 {
+			var esc []Value
+			for i, a := range args {
+				if i < n && ne[sig.Params().At(i).Name()] && v.havocCaptured(st, a) {
+					continue
+				}
+				esc = append(esc, a)
+			}
+			v.escapeClosures(st, esc)
+		} else {
+			v.escapeClosures(st, args)
+		}
 		if mods := fc.Extra["modifies"]; len(mods) > 0 {
 			// frame: only the listed cells (*p for pointer parameters p) change;
 			// the callee's body is checked against the same frame
@@ -914,6 +965,7 @@ func (v *FnV) builtin(st *State, call *ast.CallExpr, name string, preArgs []Valu
 		}
 		st.assume(sEq(n.S, sIte(sLt(sx("sllen", dst.S), srcLen), sx("sllen", dst.S), srcLen)))
 		if sl, ok := dst.T.Underlying().(*types.Slice); ok {
+			v.writeCheck(st, sx("sref", dst.S), "copy destination")
 			elem := v.substT(sl.Elem())
 			name, h := v.elemHeap(st, elem)
 			na := v.c.freshName("cp")
@@ -997,6 +1049,7 @@ func (v *FnV) appendBuiltin(st *State, call *ast.CallExpr, preArgs []Value, rt t
 		}
 	}
 	name, h := v.elemHeap(st, elem)
+	v.appendCheck(st, base)
 	ref := v.alloc(st, "append")
 	oldLen := st.define("oldlen", "Int", sx("sllen", base.S))
 	na := v.c.freshName("app")
